@@ -258,8 +258,15 @@ class Real:
     # -- the property's own oracles, on the real code alone -------------------------------
     def oracles(self, v, with_D=False, rng=None):
         """v: list of (mul,(l,p)). returns list of names of failed oracles (empty = all hold)"""
-        o3, torch = self.o3, self.torch
         bad = []
+        try:
+            self._oracles(v, with_D, rng, bad)
+        except Exception as e:  # noqa: BLE001  an oracle that cannot even be evaluated has failed
+            bad.append("oracle-raised:" + type(e).__name__)
+        return bad
+
+    def _oracles(self, v, with_D, rng, bad):
+        o3, torch = self.o3, self.torch
 
         def chk(name, cond):
             if not cond:
@@ -271,6 +278,14 @@ class Real:
             chk("parse-print", o3.Irreps(repr(x)) == x)
         except Exception:  # noqa: BLE001
             bad.append("parse-print")
+        if rng is not None:
+            # documented spellings (whitespace, implicit multiplicity 1, 'y' = (-1)**l) denote the same value
+            for _ in range(2):
+                sp = spell(v, rng)
+                try:
+                    chk("spelling-denotes-value", o3.Irreps(sp) == x)
+                except Exception:  # noqa: BLE001
+                    bad.append("spelling-denotes-value")
         dim = sum(m * (2 * l + 1) for m, (l, p) in v)
         chk("dim", x.dim == dim)
         sl = x.slices()
@@ -332,7 +347,6 @@ class Real:
                 chk("D-perm", (P @ P.T - torch.eye(dim, dtype=dt)).abs().max().item() == 0)
                 # regroup has the same blocks as the sorted irreps
                 chk("D-regroup", (g.D_from_angles(a, b, c, k) - Ds).abs().max().item() <= TOL)
-        return bad
 
 
 # ----------------------------------------------------------------------------- generators
@@ -593,6 +607,15 @@ def compare(ctx, real, stream, lines, value_of=None):
     return dis
 
 
+def viol(ctx, key, replay, found):
+    """report each key once (the first replay is the one kept on disk)"""
+    seen = ctx.__dict__.setdefault("_c06_seen", set())
+    if key in seen:
+        return
+    seen.add(key)
+    ctx.violation(key, replay, found)
+
+
 def report(ctx, real, stream, dis, values_by_line=None):
     if not dis:
         return
@@ -608,9 +631,9 @@ def report(ctx, real, stream, dis, values_by_line=None):
         if v is not None:
             bad = real.oracles(v, with_D=True, rng=ctx.rng)
             if bad:
-                ctx.violation(f"oracle:{bad[0]}", {"input": enc_val(v), "failed_oracles": bad, "op": l, "real": e, "model": g}, True)
+                viol(ctx, f"oracle:{bad[0]}", {"input": enc_val(v), "failed_oracles": bad, "op": l, "real": e, "model": g}, True)
                 return
-    ctx.violation(f"corr:{stream}", {"op": dis[0][0], "real": dis[0][1], "model": dis[0][2], "n_disagreements": len(dis)}, False)
+    viol(ctx, f"corr:{stream}", {"op": dis[0][0], "real": dis[0][1], "model": dis[0][2], "n_disagreements": len(dis)}, False)
 
 
 def run(ctx):
@@ -674,10 +697,15 @@ def run(ctx):
     nrand = 40000 if thorough else 6000
     strs += [token_soup(rng) for _ in range(nrand)]
     pool = small[:2000] + large
+    expect = {}
     for _ in range(nrand):
         v = rng.choice(pool)
         s = spell(v, rng, plain=rng.random() < 0.5)
-        strs.append(mutate(s, rng) if rng.random() < 0.8 else s)
+        if rng.random() < 0.8:
+            s = mutate(s, rng)
+        else:
+            expect[f"parse {enc_str(s)}"] = "ok " + enc_val(v)
+        strs.append(s)
     strs = [s for s in strs if not any(0xD800 <= ord(c) <= 0xDFFF for c in s)]
     lines = []
     for s in strs:
@@ -704,6 +732,12 @@ def run(ctx):
     for i in range(0, len(lines), 40000):
         dis += compare(ctx, real, "strings", lines[i:i + 40000])
     ctx.obligation("corr:strings:all-ops-agree", not dis, json.dumps(dis[:3], default=str)[:2000])
+    wrong = [(l, real.ev(l), w) for l, w in expect.items() if real.ev(l) != w]
+    ctx.count("strings:spellings-with-known-value", len(expect))
+    ctx.obligation("oracle:spellings-denote-their-value", not wrong, str(wrong[:3]))
+    if wrong:
+        l, e, w = wrong[0]
+        viol(ctx, "oracle:spelling-denotes-value", {"op": l, "string": dec_str(l.split(" ")[1]), "real": e, "expected": w}, True)
     if dis:
         # oracle for a string disagreement: if the real parser accepts s, the value must survive repr/parse
         hit = False
@@ -712,11 +746,11 @@ def run(ctx):
             if t[0] == "parse" and e.startswith("ok "):
                 bad = real.oracles(dec_irreps_t(e[3:]), with_D=False)
                 if bad:
-                    ctx.violation(f"oracle:{bad[0]}", {"string_codepoints": t[1], "real": e, "model": g, "failed_oracles": bad}, True)
+                    viol(ctx, f"oracle:{bad[0]}", {"string_codepoints": t[1], "real": e, "model": g, "failed_oracles": bad}, True)
                     hit = True
                     break
         if not hit:
-            ctx.violation("corr:strings", {"op": dis[0][0], "real": dis[0][1], "model": dis[0][2], "n_disagreements": len(dis)}, False)
+            viol(ctx, "corr:strings", {"op": dis[0][0], "real": dis[0][1], "model": dis[0][2], "n_disagreements": len(dis)}, False)
     acc = sum(1 for l in lines if l.startswith("parse ") and not real.ev(l).startswith("err")) if not thorough else -1
     ctx.log(f"strings: {len(lines)} ops, {len(dis)} disagreements, accepted parse inputs (quick only): {acc}")
 
@@ -737,7 +771,7 @@ def run(ctx):
     dis = compare(ctx, real, "items", lines)
     ctx.obligation("corr:items:all-ops-agree", not dis, json.dumps(dis[:3], default=str)[:2000])
     if dis:
-        ctx.violation("corr:items", {"op": dis[0][0], "real": dis[0][1], "model": dis[0][2], "n_disagreements": len(dis)}, False)
+        viol(ctx, "corr:items", {"op": dis[0][0], "real": dis[0][1], "model": dis[0][2], "n_disagreements": len(dis)}, False)
     ctx.log(f"items: {len(lines)} ops, {len(dis)} disagreements")
 
     # ---- 3d. Irrep-level operations ---------------------------------------------------------------------
@@ -777,11 +811,11 @@ def run(ctx):
                 (l1, p1), (l2, p2) = dec_ir_t(t[1]), dec_ir_t(t[2])
                 want = ",".join(f"{l}.{'e' if p1 * p2 == 1 else 'o'}" for l in range(abs(l1 - l2), l1 + l2 + 1))
                 if e != want:
-                    ctx.violation("oracle:triangle-rule", {"op": l, "real": e, "expected": want}, True)
+                    viol(ctx, "oracle:triangle-rule", {"op": l, "real": e, "expected": want}, True)
                     hit = True
                     break
         if not hit:
-            ctx.violation("corr:irrep", {"op": dis[0][0], "real": dis[0][1], "model": dis[0][2], "n_disagreements": len(dis)}, False)
+            viol(ctx, "corr:irrep", {"op": dis[0][0], "real": dis[0][1], "model": dis[0][2], "n_disagreements": len(dis)}, False)
     ctx.log(f"irrep: {len(lines)} ops, {len(dis)} disagreements")
 
     # ---- 4. the property oracles on the real code alone ---------------------------------------------------
@@ -803,7 +837,7 @@ def run(ctx):
     ctx.obligation("oracle:all-hold-on-real-code", first_bad is None, str(first_bad))
     if first_bad is not None:
         v, bad = first_bad
-        ctx.violation(f"oracle:{bad[0]}", {"input": enc_val(v), "failed_oracles": bad}, True)
+        viol(ctx, f"oracle:{bad[0]}", {"input": enc_val(v), "failed_oracles": bad}, True)
     ctx.log(f"oracles: {n_or} values ({n_D} with D_from_angles), first failure: {first_bad}")
 
     # ---- 5. probes for inputs outside the model's value space ----------------------------------------------
@@ -853,7 +887,7 @@ def probes(ctx, real):
             okk, got = False, map_err(e)
         ctx.count("probe:bool")
         if not okk:
-            ctx.violation(key, {"constructed_from": "Irreps([(True,(1,1))])" if "multiplicity" in key else "Irreps([(2, Irrep(True,-1))])",
+            viol(ctx, key, {"constructed_from": "Irreps([(True,(1,1))])" if "multiplicity" in key else "Irreps([(2, Irrep(True,-1))])",
                                 "equals_int_spelling": bool(x == o3.Irreps("1x1e" if "multiplicity" in key else "2x1o")),
                                 "repr": rep, "expected": "a string that Irreps() parses back to an equal value", "got": got}, True)
 
